@@ -374,7 +374,8 @@ func allowedForeign(name string, fn *ssa.Function) bool {
 		return true
 	}
 	switch name {
-	case "(time.Duration).Nanoseconds", "(time.Duration).Milliseconds", "(time.Duration).Seconds":
+	case "(time.Duration).Nanoseconds", "(time.Duration).Milliseconds", "(time.Duration).Seconds", "(time.Duration).Microseconds",
+		"(time.Duration).Minutes", "(time.Duration).Hours", "(time.Duration).Abs", "(time.Duration).Truncate":
 		return true
 	}
 	return false
